@@ -820,6 +820,13 @@ def rootOK (net : Net) (tree : Tree) (axesMap : List Nat) : Bool :=
       | some b => v.bids.contains b
       | none => false)
 
+/-- the strengthened root certificate: `rootOK` and, in addition, distinct legs of the root carry distinct bonds
+(`rootOK` alone is unsound for a single-leaf tree whose tensor repeats a bond; the code refuses that input, found while
+proving `C07_tree_sound`, see `QibProofs/Lemmas/TNetTreeRoot.lean`) -/
+def rootOKStrong (net : Net) (tree : Tree) (axesMap : List Nat) : Bool :=
+  rootOK net tree axesMap &&
+    nodupB ((List.range tree.info.idxout.length).map (nodeLegBond net tree.info))
+
 /-- certificate of an `as_einsum` result: labels are an injective renaming of bond ids -/
 def einsumOK (net : Net) (e : EinsumSpec) : Bool :=
   match dget net.tensors (-1) with
